@@ -63,6 +63,10 @@ pub struct Scenario {
     /// instead of as a public verifier
     #[serde(default)]
     pub owner_mode: bool,
+    /// every member is submitted twice in the same batch (the channel duplicated the messages);
+    /// a member's effective factor is then the sum of the factors of its two copies
+    #[serde(default)]
+    pub duplicate_all: bool,
 }
 
 pub struct C08;
@@ -108,7 +112,7 @@ fn execute(sc: &Scenario, st: &mut RunStats) -> Vec<Violation> {
     // filler: one more honest single-commitment proof, repeated in front of the members
     let filler = if sc.fillers > 0 {
         let cfg = Config { bits: sc.bits, m: 1, cap: 1, ext: sc.ext };
-        let wit = WitnessSpec { values: vec![0], promises: vec![None], blind_seed: sc.c_seed ^ 0xF111, seed_nonce: None, zero_blind: vec![], same_as_prev: vec![] };
+        let wit = WitnessSpec { values: vec![0], promises: vec![None], blind_seed: sc.c_seed ^ 0xF111, seed_nonce: None, zero_blind: vec![], same_as_prev: vec![], special_blind: None };
         let ctx = Context { label: 5, extra: None };
         let built = build::<FreePoint>(&cfg, &wit);
         match prove_mode::<FreePoint>(&ctx, &built.statement, &built.witness, &RngMode::Healthy(sc.c_seed ^ 0xF112)).0 {
@@ -126,6 +130,9 @@ fn execute(sc: &Scenario, st: &mut RunStats) -> Vec<Violation> {
     }
     if sc.owner_mode {
         st.fault("owner_mode_recover_and_verify");
+    }
+    if sc.duplicate_all {
+        st.fault("every_member_submitted_twice");
     }
     let mut state = State {
         parts: honest.clone(),
@@ -163,9 +170,11 @@ fn execute(sc: &Scenario, st: &mut RunStats) -> Vec<Violation> {
                 ctxs.push(fctx);
             }
         }
-        ord_sts.extend(state.order.iter().map(|i| statements[*i].clone()));
-        ord_pr.extend(state.order.iter().map(|i| proofs[*i].clone()));
-        ctxs.extend(state.order.iter().map(|i| &sc.members[*i].ctx));
+        for _copy in 0..(if sc.duplicate_all { 2 } else { 1 }) {
+            ord_sts.extend(state.order.iter().map(|i| statements[*i].clone()));
+            ord_pr.extend(state.order.iter().map(|i| proofs[*i].clone()));
+            ctxs.extend(state.order.iter().map(|i| &sc.members[*i].ctx));
+        }
         let obs = observe_verify(&ctxs, &ord_sts, &ord_pr, if sc.owner_mode { VerifyAction::RecoverAndVerify } else { VerifyAction::VerifyOnly })
             .map_err(|e| Violation::new("harness:observation_unavailable", "observe", e.0))?;
         st.evals += 1;
@@ -180,14 +189,16 @@ fn execute(sc: &Scenario, st: &mut RunStats) -> Vec<Violation> {
         let mut w = Vec::new();
         for b in b_points.iter() {
             let hits: Vec<&Scalar> = last.dynamic.iter().filter(|(_, p)| p == b).map(|(s, _)| s).collect();
-            if hits.len() != 1 {
+            let expect = if sc.duplicate_all { 2 } else { 1 };
+            if hits.len() != expect {
                 return Err(Violation::new(
                     "harness:observation_unavailable",
                     "observe",
-                    format!("B point of a member appears {} times in the verifier's final MSM", hits.len()),
+                    format!("B point of a member appears {} times in the verifier's final MSM (expected {})", hits.len(), expect),
                 ));
             }
-            w.push(-*hits[0]);
+            // effective factor of the member: the sum over its copies
+            w.push(-hits.iter().fold(Scalar::ZERO, |a, h| a + **h));
         }
         Ok((accepted, w, resp))
     };
@@ -361,7 +372,7 @@ impl Check for C08 {
                 let cfg = Config { bits, m, cap, ext };
                 let mut wit = WitnessSpec::generate(rng, &cfg, false);
                 if owner_mode && m == 1 {
-                    wit.seed_nonce = Some(rng.next_u64() | 2);
+                    wit.seed_nonce = Some(rng.next_u64() | 4);
                 }
                 Member { m, cap, wit, ctx: Context::generate(rng), rng_seed: rng.next_u64() }
             })
@@ -389,7 +400,7 @@ impl Check for C08 {
             _ => 0,
         };
         let fillers = if fillers > 0 && tier == Tier::Thorough && rng.chance(1, 4) { 512 + rng.usize_below(8) } else { fillers };
-        Scenario { bits, ext, members, i, j, l: rng.usize_below(n), k: rng.usize_below(ext), c_seed: rng.next_u64(), moves, fillers, owner_mode }
+        Scenario { bits, ext, members, i, j, l: rng.usize_below(n), k: rng.usize_below(ext), c_seed: rng.next_u64(), moves, fillers, owner_mode, duplicate_all: rng.chance(1, 6) }
     }
 
     fn execute(&self, sc: &Scenario, st: &mut RunStats) -> Vec<Violation> {
@@ -436,6 +447,11 @@ impl Check for C08 {
             s.owner_mode = false;
             v.push(s);
         }
+        if sc.duplicate_all {
+            let mut s = sc.clone();
+            s.duplicate_all = false;
+            v.push(s);
+        }
         if sc.fillers > 0 {
             let mut s = sc.clone();
             s.fillers = 0;
@@ -452,7 +468,7 @@ impl Check for C08 {
     fn required_probes(&self, _tier: Tier) -> Vec<&'static str> {
         vec![
             "adaptive_cancel_pair", "adaptive_touch_r1", "adaptive_touch_s1", "adaptive_permute", "adaptive_cancel_triple",
-            "resubmit", "ratio_checked_after_response_change", "members_beyond_chunk_limit", "owner_mode_recover_and_verify",
+            "resubmit", "ratio_checked_after_response_change", "members_beyond_chunk_limit", "owner_mode_recover_and_verify", "every_member_submitted_twice",
         ]
     }
 }
